@@ -1,9 +1,11 @@
 package main
 
 import (
+	"bytes"
 	"fmt"
 	"go/ast"
 	"go/parser"
+	"go/printer"
 	"go/token"
 	"os"
 	"path/filepath"
@@ -300,6 +302,9 @@ func chrootOps(repo string) (string, error) {
 		fmt.Fprintf(&sb, "%q", st)
 	}
 	sb.WriteString("].\n")
+	if err := chrootPathFacts(repo, &sb); err != nil {
+		return "", err
+	}
 	return sb.String(), nil
 }
 
@@ -475,4 +480,296 @@ func chrootState(repo string, gf *goFile, methods map[string]*ast.FuncDecl) []st
 	}
 	sort.Strings(state)
 	return state
+}
+
+// c18CoqStr: a Go string as a Coq string literal (only printable ASCII is expected here)
+func c18CoqStr(s string) string { return `"` + strings.ReplaceAll(s, `"`, `""`) + `"` }
+
+func c18CoqStrList(l []string) string {
+	q := make([]string, len(l))
+	for i, s := range l {
+		q[i] = c18CoqStr(s)
+	}
+	return "[" + strings.Join(q, "; ") + "]"
+}
+
+// the functions of chroot_fs.go through which a path travels before it reaches the inner filesystem
+var chrootPathFuncs = []string{"NewChrootFs", "cleanPathForMemFs", "join", "openAllowed", "trimVolumeName", "wrapCall", "wrapCallWithData"}
+
+// chrootPathFacts appends to Gen/ChrootOps.v what the byte-level model (Chroot/Bytes.v) takes for granted about the
+// BODIES of the path functions:
+//
+//	path_shapes          for each function of chrootPathFuncs the go/printer text of its top-level statements, alpha-normalised
+//	                     (receiver -> recv, parameters -> p0 p1.., locals -> v0 v1.. in order of appearance, string
+//	                     literals longer than 4 bytes -> "<text>", white space collapsed). A function that is missing
+//	                     has no entry.
+//	open_allowed_calls   every function called in openAllowed (no case folding, no normalisation besides
+//	                     filepath.Rel and strings.Split)
+//	open_allowed_rel_args the operands of filepath.Rel in openAllowed ("recv.root" / "param" / other text)
+//	chroot_type_tests    "<function>:<type>" for every type assertion and type switch case in chroot_fs.go
+//	constructor_fs_uses  how NewChrootFs uses the filesystem it is given ("field:<f>" stored in the ChrootFs literal,
+//	                     "arg:<callee>" passed on, "assert:<type>", "method:<name>", "assign", "other")
+//	chroot_consts        the package-level constants of chroot_fs.go with their values
+func chrootPathFacts(repo string, sb *strings.Builder) error {
+	gf, err := parseGo(repo, "pkg/syslutil/chroot_fs.go") // an own copy: identifiers are renamed in place below
+	if err != nil {
+		return err
+	}
+	fds := map[string]*ast.FuncDecl{}
+	for _, fd := range funcDecls(gf.file) {
+		fds[fd.Name.Name] = fd
+	}
+	text := func(n ast.Node) string {
+		var b bytes.Buffer
+		printer.Fprint(&b, gf.fset, n)
+		return strings.Join(strings.Fields(b.String()), " ")
+	}
+	calleeName := func(recv string, c *ast.CallExpr) string {
+		ch := selChain(c.Fun)
+		if ch == nil {
+			return "(" + text(c.Fun) + ")"
+		}
+		if recv != "" && ch[0] == recv {
+			ch = append([]string{"recv"}, ch[1:]...)
+		}
+		return strings.Join(ch, ".")
+	}
+	uniq := func(l []string) []string {
+		sort.Strings(l)
+		var out []string
+		for i, s := range l {
+			if i == 0 || l[i-1] != s {
+				out = append(out, s)
+			}
+		}
+		return out
+	}
+	// ---- facts read before the renaming ----
+	var oaCalls, relArgs []string
+	if fd := fds["openAllowed"]; fd != nil && fd.Body != nil {
+		recv := recvVar(fd)
+		param := ""
+		if ps := fd.Type.Params.List; len(ps) == 1 && len(ps[0].Names) == 1 {
+			param = ps[0].Names[0].Name
+		}
+		ast.Inspect(fd.Body, func(n ast.Node) bool {
+			c, ok := n.(*ast.CallExpr)
+			if !ok {
+				return true
+			}
+			nm := calleeName(recv, c)
+			oaCalls = append(oaCalls, nm)
+			if nm == "filepath.Rel" {
+				for _, a := range c.Args {
+					ch := selChain(a)
+					switch {
+					case len(ch) == 2 && ch[0] == recv && ch[1] == "root":
+						relArgs = append(relArgs, "recv.root")
+					case len(ch) == 1 && ch[0] == param && param != "":
+						relArgs = append(relArgs, "param")
+					default:
+						relArgs = append(relArgs, text(a))
+					}
+				}
+			}
+			return true
+		})
+		// the parameter must reach Rel as it came in
+		ast.Inspect(fd.Body, func(n ast.Node) bool {
+			if as, ok := n.(*ast.AssignStmt); ok {
+				for _, l := range as.Lhs {
+					if isIdent(l, param) {
+						relArgs = append(relArgs, "param-reassigned")
+					}
+				}
+			}
+			return true
+		})
+	} else {
+		oaCalls = []string{"(openAllowed not found)"}
+	}
+	var typeTests []string
+	for _, fd := range funcDecls(gf.file) {
+		if fd.Body == nil {
+			continue
+		}
+		name := fd.Name.Name
+		ast.Inspect(fd.Body, func(n ast.Node) bool {
+			switch x := n.(type) {
+			case *ast.TypeAssertExpr:
+				if x.Type != nil {
+					typeTests = append(typeTests, name+":"+text(x.Type))
+				}
+			case *ast.TypeSwitchStmt:
+				for _, cl := range x.Body.List {
+					for _, t := range cl.(*ast.CaseClause).List {
+						typeTests = append(typeTests, name+":"+text(t))
+					}
+				}
+			}
+			return true
+		})
+	}
+	var fsUses []string
+	if fd := fds["NewChrootFs"]; fd != nil && fd.Body != nil && len(fd.Type.Params.List) >= 1 && len(fd.Type.Params.List[0].Names) == 1 {
+		fsParam := fd.Type.Params.List[0].Names[0].Name
+		var stack []ast.Node
+		ast.Inspect(fd.Body, func(n ast.Node) bool {
+			if n == nil {
+				stack = stack[:len(stack)-1]
+				return true
+			}
+			stack = append(stack, n)
+			id, ok := n.(*ast.Ident)
+			if !ok || id.Name != fsParam || len(stack) < 2 {
+				return true
+			}
+			switch par := stack[len(stack)-2].(type) {
+			case *ast.KeyValueExpr:
+				if par.Value == ast.Expr(id) {
+					fsUses = append(fsUses, "field:"+text(par.Key))
+				} // as a key it is the field name `fs`, not the parameter
+			case *ast.CallExpr:
+				isArg := false
+				for _, a := range par.Args {
+					if a == ast.Expr(id) {
+						isArg = true
+					}
+				}
+				if isArg {
+					fsUses = append(fsUses, "arg:"+calleeName("", par))
+				} else {
+					fsUses = append(fsUses, "other")
+				}
+			case *ast.TypeAssertExpr:
+				if par.Type == nil {
+					fsUses = append(fsUses, "assert:(switch)")
+				} else {
+					fsUses = append(fsUses, "assert:"+text(par.Type))
+				}
+			case *ast.SelectorExpr:
+				if par.X == ast.Expr(id) {
+					fsUses = append(fsUses, "method:"+par.Sel.Name)
+				}
+			case *ast.AssignStmt:
+				fsUses = append(fsUses, "assign")
+			default:
+				fsUses = append(fsUses, "other")
+			}
+			return true
+		})
+	} else {
+		fsUses = []string{"(NewChrootFs not found)"}
+	}
+	var consts []string
+	for _, d := range gf.file.Decls {
+		if gd, ok := d.(*ast.GenDecl); ok && gd.Tok == token.CONST {
+			for _, sp := range gd.Specs {
+				vs := sp.(*ast.ValueSpec)
+				for i, nm := range vs.Names {
+					v := "(none)"
+					if i < len(vs.Values) {
+						v = text(vs.Values[i])
+					}
+					consts = append(consts, nm.Name+"="+v)
+				}
+			}
+		}
+	}
+	// ---- alpha-normalised statement texts ----
+	type shape struct {
+		name  string
+		stmts []string
+	}
+	var shapes []shape
+	for _, name := range chrootPathFuncs {
+		fd := fds[name]
+		if fd == nil || fd.Body == nil {
+			continue
+		}
+		ren := map[*ast.Object]string{}
+		if fd.Recv != nil {
+			for _, f := range fd.Recv.List {
+				for _, nm := range f.Names {
+					if nm.Obj != nil {
+						ren[nm.Obj] = "recv"
+					}
+				}
+			}
+		}
+		k := 0
+		for _, f := range fd.Type.Params.List {
+			for _, nm := range f.Names {
+				if nm.Obj != nil {
+					ren[nm.Obj] = fmt.Sprintf("p%d", k)
+				}
+				k++
+			}
+		}
+		v := 0
+		// the keys of a composite literal (`fs:`, `root:`) are field names although the parser resolves them to a
+		// parameter of the same name
+		keys := map[*ast.Ident]bool{}
+		ast.Inspect(fd.Body, func(n ast.Node) bool {
+			if kv, ok := n.(*ast.KeyValueExpr); ok {
+				if id, ok := kv.Key.(*ast.Ident); ok {
+					keys[id] = true
+				}
+			}
+			return true
+		})
+		ast.Inspect(fd.Body, func(n ast.Node) bool {
+			switch x := n.(type) {
+			case *ast.Ident:
+				if x.Obj != nil && x.Obj.Kind == ast.Var && x.Name != "_" {
+					if _, ok := ren[x.Obj]; !ok && x.Obj.Pos() >= fd.Body.Pos() && x.Obj.Pos() <= fd.Body.End() {
+						ren[x.Obj] = fmt.Sprintf("v%d", v)
+						v++
+					}
+				}
+			case *ast.BasicLit:
+				if x.Kind == token.STRING && len(x.Value) > 6 {
+					x.Value = `"<text>"`
+				}
+			}
+			return true
+		})
+		ast.Inspect(fd.Body, func(n ast.Node) bool {
+			if id, ok := n.(*ast.Ident); ok && id.Obj != nil && !keys[id] {
+				if nn, ok := ren[id.Obj]; ok {
+					id.Name = nn
+				}
+			}
+			return true
+		})
+		sh := shape{name: name}
+		for _, st := range fd.Body.List {
+			sh.stmts = append(sh.stmts, text(st))
+		}
+		shapes = append(shapes, sh)
+	}
+	sb.WriteString("(* ---- the bodies of the path functions, as the byte-level model (Chroot/Bytes.v) transliterates them ---- *)\n")
+	sb.WriteString("Definition path_shapes : list (string * list string) := [\n")
+	for i, sh := range shapes {
+		sep := ";"
+		if i == len(shapes)-1 {
+			sep = ""
+		}
+		fmt.Fprintf(sb, "  (%s, [\n", c18CoqStr(sh.name))
+		for j, st := range sh.stmts {
+			s2 := ";"
+			if j == len(sh.stmts)-1 {
+				s2 = ""
+			}
+			fmt.Fprintf(sb, "     %s%s\n", c18CoqStr(st), s2)
+		}
+		fmt.Fprintf(sb, "  ])%s\n", sep)
+	}
+	sb.WriteString("].\n")
+	fmt.Fprintf(sb, "Definition open_allowed_calls : list string := %s.\n", c18CoqStrList(uniq(oaCalls)))
+	fmt.Fprintf(sb, "Definition open_allowed_rel_args : list string := %s.\n", c18CoqStrList(relArgs))
+	fmt.Fprintf(sb, "Definition chroot_type_tests : list string := %s.\n", c18CoqStrList(uniq(typeTests)))
+	fmt.Fprintf(sb, "Definition constructor_fs_uses : list string := %s.\n", c18CoqStrList(uniq(fsUses)))
+	fmt.Fprintf(sb, "Definition chroot_consts : list string := %s.\n", c18CoqStrList(consts))
+	return nil
 }
